@@ -30,6 +30,15 @@ Theorem C16_serial_fills_exactly :
 Proof. exact serial_fills. Qed.
 Print Assumptions C16_serial_fills_exactly.
 
+(* the same, end to end, for the threaded path under every schedule: nothing outside the Nu x Nv block is written *)
+Theorem C16_threaded_fills_exactly :
+  forall (V : Type) (K : nat -> nat -> V) (k Nu Nv : nat) (tr : list (slot * V)) (s : store V) (j i : nat),
+    0 < k ->
+    interleaving (map (map (gen_step K)) (gen_split k (gen_pairs Nu Nv))) tr ->
+    run tr s (j, i) = if (j <? Nu) && (i <? Nv) then Some (K j i) else s (j, i).
+Proof. intros V K k Nu Nv tr s j i. exact (threaded_fills V K k Nu Nv tr s j i). Qed.
+Print Assumptions C16_threaded_fills_exactly.
+
 (* the split really hands out k chunks whose concatenation is the pair list, sizes as numpy documents *)
 Theorem C16_split_partitions :
   forall (k Nu Nv : nat), 0 < k ->
